@@ -294,3 +294,22 @@ def report_broken_correspondence(rep, m, seeds, sweep, label, details):
         for (typ, ops), d in list(zip(seeds, details))[:3]:
             rep.violation('implementation and model disagree on %s (%s); no history violating the property was found among %d neighbours' % (typ, label, n),
                           dict(d, correspondence=label, type=typ, ops=ops), found_input=False)
+
+
+def incomplete_word_cases(g, seed, per_type, maxlen=5):
+    """words of each content model with ONE child left out, supplied in a shuffled order (so that the matcher has to re-home children and the
+    final check has to notice what is missing), each followed by both final checks"""
+    rng = random.Random(seed * 131 + 7)
+    cases = []
+    for t in g['types']:
+        tree = g['templates'][t]
+        alpha = rx.alphabet(tree)
+        ws = [w for w in rx.words(rx.of_tree(tree), alpha, maxlen, cap_per_len=40) if len(w) >= 2]
+        rng.shuffle(ws)
+        for w in ws[:per_type]:
+            v = list(w)
+            del v[rng.randrange(len(v))]
+            if rng.random() < 0.8:
+                rng.shuffle(v)
+            cases.append({'type': t, 'ops': [['a', s] for s in v] + [['f', 0], ['f', 1]]})
+    return cases
